@@ -13,6 +13,6 @@ PROP = {
 
 TEXT = {
     "technique": "property-based testing: differential against bit-serial reference CRCs + chaining/residue laws, exhaustive (seed,byte) enumeration, ASan/UBSan for read bounds and alignment, libFuzzer in thorough",
-    "level": "Generated-input exploration: every CRC routine is compared with an independent bit-serial reference on millions of random messages (all lengths 0..255, every start offset 0..7 in exactly-sized heap blocks so one byte of over-read or a misaligned load is a sanitizer failure), every split point for chaining, plus complete enumeration of all 65536 (seed,byte) pairs and all short messages over {00,01,80,FF}. A separate target runs igris_crc16 / igris_crc32 / the streaming CRC-8 on messages of 256..262160 bytes (around 256, 65535/65536 and 65536 words). Absence of defects beyond the explored inputs is not established.",
+    "level": "Generated-input exploration: every CRC routine is compared with an independent bit-serial reference on millions of random messages (all lengths 0..255, every start offset 0..7 in exactly-sized heap blocks so one byte of over-read or a misaligned load is a sanitizer failure), every split point for chaining, plus complete enumeration of all 65536 (seed,byte) pairs and all short messages over {00,01,80,FF}. A separate target runs igris_crc16 / igris_crc32 / the streaming CRC-8 on messages of 256..262160 bytes (around 256, 65535/65536 and 65536 words). Absence of defects beyond the explored inputs is not established. After each case one byte is changed in place and every routine is called again with the same pointer, length and seed.",
     "note": "Trusted: the harness' bit-serial reference implementations written from the polynomial definitions (CRC-32 definition pinned by the repository's HelloWorld vector), clang ASan/UBSan.",
 }
